@@ -1,10 +1,26 @@
 /-
   SV.Spec.All — dispatcher of the executable specifications for the driver (`spec.*` ops).
 -/
-import SV.Model.Iban
+import SV.Protocol
+import SV.Spec.Iso13616
 namespace SV.Spec
 
-/-- `spec.*` operations; filled in by the Spec modules. -/
-def dispatch (_X : Ctx) (_op : String) (_args : List String) : Option String := none
+/-- `spec.*` operations. -/
+def dispatch (X : Ctx) (op : String) (args : List String) : Option String :=
+  match op, args with
+  | "spec.iban_valid", [c] => do
+    let c ← parseStr c
+    pure ("ok " ++ showBool (isoValid X.T c))
+  | "spec.check_digits", [cc, b] => do
+    let cc ← parseStr cc
+    let b ← parseStr b
+    pure ("ok " ++ showStr (fmt02 (checkDigits cc b)))
+  | "spec.fits", [cc, b] => do
+    let cc ← parseStr cc
+    let b ← parseStr b
+    match X.T.lookup cc with
+    | some e => pure ("ok " ++ showBool (fits e b))
+    | none => pure "none"
+  | _, _ => none
 
 end SV.Spec
